@@ -242,6 +242,51 @@ Definition render_taint_legacy {F : FTable} (strict : bool) (T : list (str * str
   : toutcome * list failure :=
   translate_t true (S (length T)) strict T c s.
 
+(* translate(mRNA(s, codons=...)) in the taint model (Impl.translate_decl): the up-front check walks the
+   declared list [req]; the passes are the same and log the same *)
+Definition translate_core_t {F : FTable} (legacy : bool) (fuel' : nat) (strict : bool) (T : list (str * str))
+                            (c : ctx) (s : str) : toutcome * list failure :=
+  let '(r1, l1) := pass_if_t c (taint FromTemplate s) in
+  let '(r2, l2) := pass_each_t legacy c (text_of r1) in
+  let rs := resolve_includes_t
+              (fun n => match lookup T n with
+                        | Some sq => Some (translate_t legacy fuel' strict T c sq)
+                        | None => None
+                        end) (text_of r2) in
+  let '(r3, l3) := include_text_t legacy rs in
+  match r3 with
+  | inr e => (ErrT e, l1 ++ l2 ++ l3)
+  | inl s3 =>
+      let '(r4, l4) := pass_filtered_t legacy c s3 in
+      match r4 with
+      | inr e => (ErrT e, l1 ++ l2 ++ l3 ++ l4)
+      | inl s4 =>
+          let '(s5, l5) := pass_default_t legacy c s4 in
+          let '(r6, l6) := pass_optional_t legacy c s5 in
+          let s6 := text_of r6 in
+          let '(r7, l7) := pass_simple_t legacy (strict && negb legacy) c s6 in
+          let lg := l1 ++ l2 ++ l3 ++ l4 ++ l5 ++ l6 ++ l7 in
+          match r7 with
+          | inr e => (ErrT e, lg)
+          | inl s7 =>
+              (OkT (tunsh legacy s7)
+                   (include_warnings_t legacy rs ++ warn_filtered_t c s3 ++ warn_simple_t c s6), lg)
+          end
+      end
+  end.
+Definition add_missing_t (miss : list str) (o : toutcome) : toutcome :=
+  match o with OkT t w => OkT t (map WMissing miss ++ w) | ErrT e => ErrT e end.
+Definition translate_decl_t {F : FTable} (legacy : bool) (fuel' : nat) (strict : bool) (T : list (str * str))
+                            (c : ctx) (s : str) (req : list str) : toutcome * list failure :=
+  let miss := missing_of legacy c s req in
+  match (if strict then miss else []) with
+  | x :: _ => (ErrT (EMissing x), [])
+  | [] => let '(o, lg) := translate_core_t legacy fuel' strict T c s in (add_missing_t miss o, lg)
+  end.
+Definition render_taint_decl {F : FTable} (strict : bool) (T : list (str * str)) (c : ctx) (s : str)
+                             (cs : list codon) : toutcome * list failure :=
+  translate_decl_t false (length T) strict T c s (required_of cs s).
+
 (* ------------------------------------------------------------------ *)
 (* observations                                                         *)
 Definition err_row (e : option error) : list Z :=
@@ -314,7 +359,10 @@ Inductive op :=
 | OpRegister (n : str) (t : template)   (* create_template(seq, n) / register_template(mRNA(seq, any name)[, name=n]) *)
 | OpRender (t : template) (c : ctx)     (* synthesize(seq, **c) / translate(mRNA(seq, any name) not registered, **c) *)
 | OpTranslate (n : str) (c : ctx)       (* translate(n, **c) by registered name *)
-| OpSetFilter (n : str) (cf : cfilter). (* self.filters[n] = f *)
+| OpSetFilter (n : str) (cf : cfilter)  (* self.filters[n] = f *)
+| OpRenderDecl (t : template) (cs : list codon) (c : ctx).
+                                        (* translate(mRNA(seq, codons=cs) not registered, **c): hand-written codons
+                                           ([] = the auto-detected ones, i.e. OpRender) *)
 
 (* self.templates[n] = t : an existing key keeps its position *)
 Fixpoint reg_set (T : list (str * template)) (n : str) (t : template) : list (str * template) :=
@@ -342,6 +390,9 @@ Definition result_on {F : FTable} (strict : bool) (T : list (str * template)) (o
   | OpRegister _ _ => RRegistered
   | OpSetFilter _ _ => RFilterSet
   | OpRender t c => render t c
+  | OpRenderDecl t cs c =>
+      RRender t c (render_impl_decl strict (print_templates T) c (print t) cs)
+                  (render_taint_decl strict (print_templates T) c (print t) cs)
   | OpTranslate n c => match lookup T n with Some t => render t c | None => RUnknown n end
   end.
 Definition registry_after (T : list (str * template)) (o : op) : list (str * template) :=
